@@ -8,6 +8,7 @@
   Part 3: the structural (mutual) induction over `V` / `List (String × V)` / `List V`.
 -/
 import Lungo.Model.Compare
+import Lungo.Spec.I64Ok
 import Lungo.Proofs.Order
 namespace Lungo
 open Lungo.Ord
@@ -436,23 +437,6 @@ theorem V.cmp_rank (a b : V) (h : a.cls.rank < b.cls.rank) : V.cmp a b = .lt := 
 
 
 /-! ### Transitivity and congruence (int64 payloads in range) -/
-
-mutual
-/-- Every int64 payload inside the value is in the int64 range (implied by `V.wf`). This is the
-    only well-formedness the order laws need: for out-of-range "int64" payloads the range checks
-    of `compareInt64ToFloat64` are wrong (e.g. `i64 2^64` vs the double `2^63`). -/
-def V.i64Ok : V → Bool
-  | .i64 n => inI64 n
-  | .doc fs => i64OkFields fs
-  | .arr xs => i64OkList xs
-  | _ => true
-def i64OkFields : List (String × V) → Bool
-  | [] => true
-  | (_, v) :: r => v.i64Ok && i64OkFields r
-def i64OkList : List V → Bool
-  | [] => true
-  | v :: r => v.i64Ok && i64OkList r
-end
 
 theorem V.i64Top_of_i64Ok {a : V} (h : a.i64Ok = true) : a.i64Top = true := by
   cases a <;> first | rfl | (simpa [V.i64Ok, V.i64Top] using h)
